@@ -31,7 +31,7 @@ type standinResult struct {
 	Crash    string   `json:"crash,omitempty"`
 }
 
-var standinProps = map[string]bool{"C01": true, "C02": true, "C03": true, "C04": true, "C05": true, "C06": true, "C07": true, "C08": true, "C09": true, "C10": true, "C11": true, "C13": true, "C14": true, "C15": true, "C16": true}
+var standinProps = map[string]bool{"C01": true, "C02": true, "C03": true, "C04": true, "C05": true, "C06": true, "C07": true, "C08": true, "C09": true, "C10": true, "C11": true, "C13": true, "C14": true, "C15": true, "C16": true, "C17": true}
 
 func (cc *checkCtx) runStandin() *standinResult {
 	res := &standinResult{Label: "bounded"}
